@@ -1,0 +1,122 @@
+//go:build verif
+
+/*
+ * Licensed to the Apache Software Foundation (ASF) under one or more
+ * contributor license agreements.  See the NOTICE file distributed with
+ * this work for additional information regarding copyright ownership.
+ * The ASF licenses this file to You under the Apache License, Version 2.0
+ * (the "License"); you may not use this file except in compliance with
+ * the License.  You may obtain a copy of the License at
+ *
+ *     http://www.apache.org/licenses/LICENSE-2.0
+ *
+ * Unless required by applicable law or agreed to in writing, software
+ * distributed under the License is distributed on an "AS IS" BASIS,
+ * WITHOUT WARRANTIES OR CONDITIONS OF ANY KIND, either express or implied.
+ * See the License for the specific language governing permissions and
+ * limitations under the License.
+ */
+
+package tm
+
+// Verification contracts for property C04 (comment-only, tag verif): one truthful decision per
+// global transaction. SendSyncRequest is the boundary to the coordinator (assumed contract in
+// pkg/remoting/getty: any error; a well-typed response otherwise; calls counted per request kind).
+
+// Lazily initialised singleton behind sync.Once: trusted (body not verified).
+//@ func GetGlobalTransactionManager
+//@   trusted
+//@   ensures result != nil
+
+//@ func (*GlobalTransactionManager).Commit
+//@   prop C04
+//@   requires gtr != nil && ctx != nil
+//@   requires ghost.commit_sends == 0 && ghost.rollback_sends == 0 && !ghost.commit_acked && !ghost.rollback_acked
+//@   let role := gtr.TxRole
+//@   let xid := gtr.Xid
+//@   modifies gtr.TxStatus, ghost.commit_sends, ghost.commit_acked, ghost.commit_xid, ghost.last_send_failed, ghost.ctx_done
+//@   ensures role: role != Launcher ==> result == nil && ghost.commit_sends == 0
+//@   ensures truthful-nil: role == Launcher && result == nil ==> ghost.commit_acked
+//@   ensures never-rollback: ghost.rollback_sends == 0 && ghost.begin_sends == old(ghost.begin_sends) && ghost.other_sends == old(ghost.other_sends)
+//@   ensures own-xid: ghost.commit_sends > 0 ==> ghost.commit_xid == xid && role == Launcher
+//@   ensures retry-bound: config.CommitRetryCount > 0 ==> ghost.commit_sends <= config.CommitRetryCount
+//@   nopanic
+//@   terminates
+//@   loop 1 invariant shape: bf != nil && bf.ctx == ctx && bf.cfg.MaxRetries == config.CommitRetryCount && bf.numRetries >= 0 && ghost.commit_sends == bf.numRetries && (config.CommitRetryCount > 0 ==> bf.numRetries <= config.CommitRetryCount)
+//@   loop 1 invariant failed-so-far: !ghost.commit_acked && (ghost.commit_sends > 0 ==> err != nil) && (ghost.commit_sends == 0 ==> err == nil && res == nil)
+//@   loop 1 invariant others: ghost.rollback_sends == 0 && ghost.begin_sends == old(ghost.begin_sends) && ghost.other_sends == old(ghost.other_sends) && (ghost.commit_sends > 0 ==> ghost.commit_xid == xid) && gtr.TxRole == role && gtr.Xid == xid
+//@   loop 1 decreases config.CommitRetryCount - bf.numRetries
+
+//@ func (*GlobalTransactionManager).Rollback
+//@   prop C04
+//@   requires gtr != nil && ctx != nil
+//@   requires ghost.commit_sends == 0 && ghost.rollback_sends == 0 && !ghost.commit_acked && !ghost.rollback_acked
+//@   let role := gtr.TxRole
+//@   let xid := gtr.Xid
+//@   modifies gtr.TxStatus, ghost.rollback_sends, ghost.rollback_acked, ghost.rollback_xid, ghost.last_send_failed, ghost.ctx_done
+//@   ensures role: role != Launcher ==> result == nil && ghost.rollback_sends == 0
+//@   ensures truthful-nil: role == Launcher && result == nil ==> ghost.rollback_acked
+//@   ensures never-commit: ghost.commit_sends == 0 && ghost.begin_sends == old(ghost.begin_sends) && ghost.other_sends == old(ghost.other_sends)
+//@   ensures own-xid: ghost.rollback_sends > 0 ==> ghost.rollback_xid == xid && role == Launcher
+//@   ensures retry-bound: config.RollbackRetryCount > 0 ==> ghost.rollback_sends <= config.RollbackRetryCount
+//@   nopanic
+//@   terminates
+//@   loop 1 invariant shape: bf != nil && bf.ctx == ctx && bf.cfg.MaxRetries == config.RollbackRetryCount && bf.numRetries >= 0 && ghost.rollback_sends == bf.numRetries && (config.RollbackRetryCount > 0 ==> bf.numRetries <= config.RollbackRetryCount)
+//@   loop 1 invariant failed-so-far: !ghost.rollback_acked && (ghost.rollback_sends > 0 ==> err != nil) && (ghost.rollback_sends == 0 ==> err == nil && res == nil)
+//@   loop 1 invariant others: ghost.commit_sends == 0 && ghost.begin_sends == old(ghost.begin_sends) && ghost.other_sends == old(ghost.other_sends) && (ghost.rollback_sends > 0 ==> ghost.rollback_xid == xid) && gtr.TxRole == role && gtr.Xid == xid
+//@   loop 1 decreases config.RollbackRetryCount - bf.numRetries
+
+//@ func (*GlobalTransactionManager).Begin
+//@   prop C04
+//@   requires ctx != nil && ghost.begin_sends == 0
+//@   let cv := ctxvalue(ctx, seataContextVariable)
+//@   requires isT(cv, *ContextVariable) && cv.(*ContextVariable) != nil
+//@   let xid0 := cv.(*ContextVariable).Xid
+//@   ensures one-request: ghost.begin_sends == 1 && ghost.commit_sends == old(ghost.commit_sends) && ghost.rollback_sends == old(ghost.rollback_sends)
+//@   ensures failure-surfaces: ghost.last_send_failed ==> result != nil
+//@   ensures xid-only-on-success: result != nil ==> cv.(*ContextVariable).Xid == xid0
+
+// The business callback: any result, may panic; it is assumed to leave the transaction context
+// variable as it found it (this is what C07/frame proves for nested scopes).
+//@ ghost var biz_calls int
+//@ ghost var biz_err_nil bool
+//@ ghost var biz_panicked bool
+//@ ext callback:business
+//@   may_panic
+//@   modifies ghost.biz_calls, ghost.biz_err_nil, ghost.biz_panicked
+//@   ensures ghost.biz_calls == old(ghost.biz_calls) + 1 && ghost.biz_err_nil == (result == nil) && ghost.biz_panicked == old(ghost.biz_panicked)
+//@   ensures_on_panic ghost.biz_calls == old(ghost.biz_calls) + 1 && ghost.biz_panicked
+
+//@ func commitOrRollback
+//@   prop C04
+//@   requires ctx != nil
+//@   let cv := ctxvalue(ctx, seataContextVariable)
+//@   requires isT(cv, *ContextVariable) && cv.(*ContextVariable) != nil
+//@   requires ghost.commit_sends == 0 && ghost.rollback_sends == 0 && !ghost.commit_acked && !ghost.rollback_acked
+//@   let role := cv.(*ContextVariable).TxRole
+//@   ensures decision-commit: role == Launcher && isSuccess ==> called("(*GlobalTransactionManager).Commit#1") && !called("(*GlobalTransactionManager).Commit#2") && !called("(*GlobalTransactionManager).Rollback#1") && ghost.rollback_sends == 0
+//@   ensures decision-rollback: role == Launcher && !isSuccess ==> called("(*GlobalTransactionManager).Rollback#1") && !called("(*GlobalTransactionManager).Rollback#2") && !called("(*GlobalTransactionManager).Commit#1") && ghost.commit_sends == 0
+//@   ensures participant: role != Launcher ==> !called("(*GlobalTransactionManager).Commit#1") && !called("(*GlobalTransactionManager).Rollback#1") && ghost.commit_sends == 0 && ghost.rollback_sends == 0
+//@   ensures participant-result: role == Participant ==> result == nil
+//@   ensures returns-their-error: (called("(*GlobalTransactionManager).Commit#1") ==> result == callres("(*GlobalTransactionManager).Commit#1", 0)) && (called("(*GlobalTransactionManager).Rollback#1") ==> result == callres("(*GlobalTransactionManager).Rollback#1", 0))
+//@   ensures truthful-nil: role == Launcher && result == nil ==> (isSuccess && ghost.commit_acked) || (!isSuccess && ghost.rollback_acked)
+//@   ensures unknown-role: role == UnKnow ==> result != nil
+
+// begin: verified in detail under C07; for C04 only its frame on the coordinator traffic matters.
+//@ func begin
+//@   requires ctx != nil
+//@   let cv := ctxvalue(ctx, seataContextVariable)
+//@   requires isT(cv, *ContextVariable) && cv.(*ContextVariable) != nil
+//@   modifies cv.(*ContextVariable).Xid, cv.(*ContextVariable).XidCopy, cv.(*ContextVariable).TxName, cv.(*ContextVariable).TxStatus, cv.(*ContextVariable).TxRole, ghost.begin_sends, ghost.last_send_failed
+//@   ensures ghost.commit_sends == old(ghost.commit_sends) && ghost.rollback_sends == old(ghost.rollback_sends)
+
+//@ func WithGlobalTx
+//@   prop C04
+//@   requires ctx != nil
+//@   requires ghost.commit_sends == 0 && ghost.rollback_sends == 0 && ghost.begin_sends == 0 && ghost.other_sends == 0 && !ghost.commit_acked && !ghost.rollback_acked && ghost.biz_calls == 0 && !ghost.biz_panicked
+//@   ensures decision-once: !called("commitOrRollback#2")
+//@   ensures decision-argument: called("commitOrRollback#1") ==> callarg("commitOrRollback#1", 1) == (ghost.biz_calls == 1 && ghost.biz_err_nil && !ghost.biz_panicked)
+//@   ensures decision-after-business: called("commitOrRollback#1") ==> ghost.biz_calls == 1
+//@   ensures surface: result == nil ==> ghost.biz_calls == 1 && ghost.biz_err_nil && !ghost.biz_panicked && (called("commitOrRollback#1") ==> callres("commitOrRollback#1", 0) == nil)
+//@   ensures business-once: ghost.biz_calls <= 1
+//@   ensures_on_panic no-panic-escapes: false
